@@ -1,2 +1,2 @@
 #!/bin/sh
-for p in C04 C06 C07 C10 C14 C19 C11 C12; do echo "=== $p"; bin/check $p --tier thorough 2>&1 | grep -E 'INCONCL|VIOL|OK:|BUILD|KNOWN' | cut -c1-200; done
+for p in C04 C19 C11 C12; do echo "=== $p"; bin/check $p --tier thorough 2>&1 | grep -E 'INCONCL|VIOL|OK:|BUILD|KNOWN' | cut -c1-200; done
